@@ -384,7 +384,10 @@ func (a *argSpec) typeCheck(arg interface{}) error {
 				return nil
 			}
 		case jpAny:
-			return nil
+			// Any JSON value, but not an expression reference.
+			if _, ok := arg.(expRef); !ok {
+				return nil
+			}
 		case jpExpref:
 			if _, ok := arg.(expRef); ok {
 				return nil
